@@ -1458,19 +1458,27 @@ func c07SecondHunt(ctx *Ctx, r *Report) {
 				return true
 			}
 			self := objOf(info, id)
-			resolves, calls := false, false
+			// the call that hands the branches of the *resolved* disjunction back comes after the resolution (a union
+			// written in place is unfolded by an earlier call, which says nothing of the referred ones)
+			var resolvedAt token.Pos
 			ast.Inspect(lit.Body, func(q ast.Node) bool {
 				if c, ok := q.(*ast.CallExpr); ok {
-					if f := callee(info, c); f != nil && strings.HasPrefix(f.Name(), "Resolve") {
-						resolves = true
+					if f := callee(info, c); f != nil && strings.HasPrefix(f.Name(), "Resolve") && !resolvedAt.IsValid() {
+						resolvedAt = c.Pos()
 					}
-					if cid, ok := c.Fun.(*ast.Ident); ok && objOf(info, cid) == self {
+				}
+				return true
+			})
+			calls := false
+			ast.Inspect(lit.Body, func(q ast.Node) bool {
+				if c, ok := q.(*ast.CallExpr); ok {
+					if cid, ok := c.Fun.(*ast.Ident); ok && objOf(info, cid) == self && resolvedAt.IsValid() && c.Pos() > resolvedAt {
 						calls = true
 					}
 				}
 				return true
 			})
-			if resolves && calls {
+			if calls {
 				recursive = true
 			}
 			return true
